@@ -242,13 +242,13 @@ func bufBytes(br bitio.ReaderAtSeeker) ([]byte, int64) {
 		kit.Fatalf("buffer length: %v", err)
 	}
 	b := make([]byte, (n+7)/8)
-	if n > 0 {
-		if _, err := br.ReadBitsAt(b, n, 0); err != nil && err != io.EOF {
-			kit.Fatalf("buffer read: %v", err)
+	one := make([]byte, 1)
+	for i := int64(0); i < n; i++ { // bit by bit: no assumption about short reads at the seams of concatenated readers
+		one[0] = 0
+		if k, err := br.ReadBitsAt(one, 1, i); k != 1 {
+			kit.Fatalf("buffer read at bit %d: %v", i, err)
 		}
-	}
-	if n%8 != 0 {
-		b[len(b)-1] &= 0xff << (8 - n%8)
+		b[i/8] |= (one[0] >> 7) << (7 - i%8)
 	}
 	return b, n
 }
